@@ -169,27 +169,18 @@ func runC31(c *core.Ctx) {
 		}
 		al := allocs[0]
 		sinks := []ir.Sink{{Instr: al, Note: "new tracked consensus"}}
-		higher := eng.NamedGuard{Name: "header index > tracked height", G: func(cd ir.Cond) (bool, bool) {
-			b, ok := cd.V.(*ssa.BinOp)
-			if !ok || b.Op != token.GTR {
-				return false, false
-			}
-			tr := func(v ssa.Value) bool {
-				base, f, ok := fieldLoad(v)
-				return ok && f == "Height" && isCallTo(base, gcv)
-			}
-			idx := func(v ssa.Value) bool {
+		higher := relGuard("header index > tracked height",
+			func(v ssa.Value) bool {
 				if isFieldNamed(v, "Index") {
 					return true
 				}
 				cl, _ := ir.CallOf(v)
 				return cl != nil && ir.CalleeObj(cl) != nil && ir.CalleeObj(cl).Name() == "GetIndex"
-			}
-			if idx(b.X) && tr(b.Y) {
-				return true, true
-			}
-			return false, false
-		}}
+			},
+			func(v ssa.Value) bool {
+				base, f, ok := fieldLoad(v)
+				return ok && f == "Height" && isCallTo(base, gcv)
+			}, token.GTR)
 		eng.Dominates(c, "C31.neo-change-authenticated", fn, higher, sinks, "new tracked consensus", nil)
 		eng.Dominates(c, "C31.neo-change-authenticated", fn, eng.ErrNilOf("verifyHeader", nvh), sinks, "new tracked consensus", nil)
 		// only that object (or nil) reaches putConsensusValByChainId
